@@ -8,6 +8,7 @@ CONSTANTS
   MaxSend = 7
   FineTime = TRUE
   SlowWrites = FALSE
+  SlowRtx = "no"
   FailAts = {0, 1, 2, 7}
   MaxDepth = 5
 CONSTRAINT DepthBound
